@@ -32,6 +32,7 @@ type OblResult struct {
 	Ms      int64  `json:"ms"`
 	Nodes   int    `json:"nodes"`
 	Model   *Model `json:"model,omitempty"`
+	Env     map[string]uint64 `json:"-"`
 	Second  string `json:"second_solver,omitempty"`
 	Status2 string `json:"second_status,omitempty"`
 }
@@ -159,6 +160,7 @@ type RunOpts struct {
 	Opt        map[string]string // per-nondet option overrides
 	AbstractMul bool
 	Native      bool
+	Conc        bool
 	Filter2     *regexp.Regexp
 }
 
@@ -232,6 +234,9 @@ func runOneMode(ld *Loaded, fn *ssa.Function, opts RunOpts, pool *Pool, abstract
 	if opts.Native {
 		ex.Native = NewNativeEnv()
 	}
+	if opts.Conc {
+		ex.Conc = NewConcEnv(ex.ts)
+	}
 	ex.optOverride = opts.Opt
 	t0 := time.Now()
 	func() {
@@ -255,6 +260,20 @@ func runOneMode(ld *Loaded, fn *ssa.Function, opts RunOpts, pool *Pool, abstract
 		}()
 		ex.callFunction(fn, nil, nil, Heap{}, ex.ts.True, 0)
 	}()
+	if ex.Conc != nil && res.Status != "unsupported" {
+		func() {
+			defer func() {
+				if r := recover(); r != nil {
+					res.Status = "unsupported"
+					res.Detail = fmt.Sprintf("schedule encoding: %v", r)
+				}
+			}()
+			ex.finalizeConc()
+			ex.Obls = append(ex.Obls, ex.Conc.Panics...)
+			ex.Obls = append(ex.Obls, Obligation{Kind: "assert", Cond: ex.Conc.Deadlock, Label: "no deadlock / no goroutine left blocked (maximal schedules)"})
+			ex.Obls = append(ex.Obls, Obligation{Kind: "assert", Cond: ex.Conc.Race, Label: "no data race on memory shared between goroutines"})
+		}()
+	}
 	res.ExecMs = time.Since(t0).Milliseconds()
 	if verbose {
 		fmt.Fprintf(os.Stderr, "[%s] exec done %dms terms=%d obls=%d assumes=%d status=%s %s\n", fn.Name(), res.ExecMs, len(ex.ts.nodes), len(ex.Obls), len(ex.Assumes), res.Status, firstLine(res.Detail))
@@ -299,9 +318,22 @@ func runOneMode(ld *Loaded, fn *ssa.Function, opts RunOpts, pool *Pool, abstract
 			if opts.DumpDir != "" {
 				dumpQuery(ex, bo, fmt.Sprintf("%s/%s_batch.smt2", opts.DumpDir, fn.Name()))
 			}
+			bo.Kind = "batchmodel"
 			br := dischargeObl(ex, bo, opts, pool)
 			if verbose {
 				fmt.Fprintf(os.Stderr, "[%s] batch of %d panic/unwind/bound obligations -> %s (%s %dms nodes=%d)\n", fn.Name(), len(conds), br.Status, br.Solver, br.Ms, br.Nodes)
+			}
+			if br.Status == "sat" && br.Env != nil {
+				// identify the violated obligation(s) from the model of the disjunction
+				memo := map[int]uint64{}
+				for _, oi := range idx {
+					o := ex.Obls[oi]
+					if v, err := ex.ts.Eval(o.Cond, br.Env, memo); err == nil && v == 1 {
+						m := buildModel(ex, br.Env)
+						batched[oi] = OblResult{Kind: o.Kind, Label: o.Label, Pos: o.Pos, Fn: o.Fn, Status: "sat", Solver: br.Solver + "(batch model)", Ms: br.Ms, Nodes: br.Nodes, Model: m}
+						break
+					}
+				}
 			}
 			if br.Status == "unsat" {
 				for k, oi := range idx {
@@ -319,6 +351,10 @@ func runOneMode(ld *Loaded, fn *ssa.Function, opts RunOpts, pool *Pool, abstract
 		var or OblResult
 		if b, ok := batched[oi]; ok {
 			or = b
+		} else if len(batched) > 0 && batchViolation(batched) && (o.Kind == "panic" || o.Kind == "unwind" || o.Kind == "bound") {
+			or = OblResult{Kind: o.Kind, Label: o.Label, Pos: o.Pos, Fn: o.Fn, Status: "skipped"}
+			res.Obls = append(res.Obls, or)
+			continue
 		} else if time.Since(t1) > harnessBudget {
 			or = OblResult{Kind: o.Kind, Label: o.Label, Pos: o.Pos, Fn: o.Fn, Status: "skipped"}
 			if res.Status == "ok" {
@@ -382,6 +418,15 @@ func runOneMode(ld *Loaded, fn *ssa.Function, opts RunOpts, pool *Pool, abstract
 	return
 }
 
+func batchViolation(b map[int]OblResult) bool {
+	for _, r := range b {
+		if r.Status == "sat" {
+			return true
+		}
+	}
+	return false
+}
+
 func queryParts(ex *Exec, o Obligation) (prefix string, asserts []string, vars []*Term, nodes int) {
 	roots := append([]*Term{}, ex.Assumes...)
 	roots = append(roots, o.Cond)
@@ -443,6 +488,7 @@ func dischargeObl(ex *Exec, o Obligation, opts RunOpts, pool *Pool) OblResult {
 		or.Ms += qr.Time.Milliseconds()
 		if qr.Status == "sat" && o.Kind != "reach" {
 			or.Model = buildModel(ex, qr.Model)
+			or.Env = qr.Model
 		}
 	}
 	one := func(sn string, tmo time.Duration) QueryResult {
@@ -568,6 +614,7 @@ func cmdSymx(args []string) int {
 	tmo := fs.Int("timeout", 60, "solver timeout seconds")
 	absmul := fs.Bool("absmul", false, "abstract multiplication by constants as UF first")
 	native := fs.Bool("native", false, "mode B: native go/types values")
+	conc := fs.Bool("conc", false, "mode C: schedules as solver variables")
 	fs.BoolVar(&verbose, "v", false, "verbose")
 	fs.BoolVar(&noSolve, "nosolve", false, "only list obligations")
 	fs.Parse(args)
@@ -577,7 +624,7 @@ func cmdSymx(args []string) int {
 		fmt.Fprintln(os.Stderr, err)
 		return 2
 	}
-	opts := RunOpts{Bounds: b, Workers: *workers, CrossCheck: *cross, DumpDir: *dump, Solvers: strings.Split(*solvers, ","), AbstractMul: *absmul, Native: *native}
+	opts := RunOpts{Bounds: b, Workers: *workers, CrossCheck: *cross, DumpDir: *dump, Solvers: strings.Split(*solvers, ","), AbstractMul: *absmul, Native: *native, Conc: *conc}
 	if *run != "" {
 		opts.Filter = regexp.MustCompile(*run)
 	}
